@@ -179,3 +179,63 @@ func VerifC15Foreach() {
 	rt.Assert(len(stdout) == len(want), "foreach did not run its body exactly once per element")
 	rt.Assert(stdout == want, "foreach did not bind the elements verbatim and in order")
 }
+
+// ---- forwarding: a reader's slices go straight into another type's writer ----
+
+// (json is left out: its writer re-encodes with encoding/json, which the engine runs on concrete values only)
+var verifForwardTypes = []string{types.String, types.Generic, types.JsonLines, "paths"}
+
+// VerifC15Forward: the idiom of murex's list builtins: every []byte a ReadArray callback hands out
+// (for line-based types a window into the scanner's buffer, valid until the next element) is
+// passed straight to the Write of another type's array writer; the list read back from that
+// writer's output must be the list that was read. The source is a `str` list of `items` lines of
+// `width` bytes (more than the scanner's 4 KiB start buffer in total); the first and the last
+// line start with a symbolic byte.
+func VerifC15Forward() {
+	mx.Init()
+	dt := verifForwardTypes[rt.Choice("type", len(verifForwardTypes))]
+	n, w := rt.Param("items"), rt.Param("width")
+	lines := make([]string, n)
+	text := ""
+	for i := range lines {
+		b := make([]byte, w)
+		for j := range b {
+			b[j] = byte('a' + (i+j)%26)
+		}
+		b[0] = byte('A' + i%10)
+		if i == 0 || i == n-1 { // the first and the last line start with a symbolic byte
+			c := rt.Byte("first")
+			rt.Assume(rt.And(c >= 'A', c <= 'J'))
+			b[0] = c
+		}
+		lines[i] = string(b)
+		text += lines[i] + "\n"
+	}
+	src := streams.NewStdin()
+	src.SetDataType(types.String)
+	_, err := src.Write([]byte(text))
+	rt.Assert(err == nil, "cannot fill the source")
+
+	dst := streams.NewStdin()
+	dst.SetDataType(dt)
+	aw, err := dst.WriteArray(dt)
+	rt.Assert(err == nil, "no array writer for the type")
+	err = src.ReadArray(context.Background(), func(b []byte) {
+		rt.Assert(aw.Write(b) == nil, "array writer failed")
+	})
+	rt.Assert(err == nil, "reading the source failed")
+	rt.Assert(aw.Close() == nil, "array writer Close failed")
+	rt.Reach("forwarded")
+
+	var got []string
+	err = dst.ReadArray(context.Background(), func(b []byte) {
+		got = append(got, string(b))
+	})
+	rt.Assert(err == nil, "reading the forwarded list failed")
+	rt.Assert(len(got) == len(lines), "forwarding a list into another type's array writer changed the number of elements")
+	for i := range lines {
+		if i < len(got) {
+			rt.Assert(got[i] == lines[i], "forwarding a list into another type's array writer changed or mixed up elements")
+		}
+	}
+}
